@@ -27,6 +27,7 @@ for id in "$@"; do
   out=$(./vcheck "$id" --tier "${VERIF_TIER:-quick}" 2>&1); rc=$?
   echo "== $id rc=$rc :: $(echo "$out" | grep -E 'VIOLATION|HARNESS|KNOWN-FINDING' | head -3 | cut -c1-300)"
   echo "$out" | grep -E "counterexample" | head -2 | cut -c1-400
+  if [ $rc -ge 2 ]; then echo "--- harness error output (tail) ---"; echo "$out" | tail -25 | cut -c1-300; echo "---"; fi
   [ $rc -ne 0 ] && rc_all=1
 done
 exit $rc_all
